@@ -1170,6 +1170,23 @@ impl Transaction {
             }
 
             //
+            // slips that have fallen out of the genesis period are no longer spendable :
+            // they have been rebroadcast, or collected as fees, by the block that follows
+            // the expiry of their block even though the utxoset keeps their keys until
+            // the block is purged.
+            //
+            let next_block_id = blockchain.get_latest_block_id() + 1;
+            if validate_against_utxo
+                && self.from.iter().any(|slip| {
+                    slip.amount > 0
+                        && slip.block_id.saturating_add(blockchain.genesis_period) < next_block_id
+                })
+            {
+                error!("ERROR 582041: transaction spends a slip older than the genesis period");
+                return false;
+            }
+
+            //
             // validate tokens are not created out of thin air. the sums are
             // recalculated without wrapping around the range of Currency
             //
